@@ -22,6 +22,8 @@ def step (s : State) (toks : List String) : State × String :=
   | "rtok" :: _ => (s, (MsgEmit.handle toks).getD "bad-op")
   | "svcbenc" :: _ => (s, (MsgEmit.handle toks).getD "bad-op")
   | "ednsrc" :: _ => (s, (MsgEmit.handle toks).getD "bad-op")
+  | "badrec" :: _ => (s, (MsgEmit.handle toks).getD "bad-op")
+  | "respb" :: _ => (s, (MsgEmit.handle toks).getD "bad-op")
   | "asm" :: _ => (s, "~")
   | _ => (s, "bad-op")
 
